@@ -70,6 +70,12 @@ POSITIONS = {
     "return": (["f_ = |v_| -> {H}", "  v_", "f_({V})", "'ok'"], "assert"),
     "return_explicit": (["f_ = |v_| -> {H}", "  return v_", "f_({V})", "'ok'"], "assert"),
     "yield": (["g_ = |v_| -> {H}", "  yield v_", "g_({V}).to_list()", "'ok'"], "assert"),
+    # `return` inside a value-producing expression (compiled with a fixed result register)
+    "return_in_last_if": (["f_ = |v_| -> {H}", "  if true then return v_ else v_", "f_({V})", "'ok'"], "assert"),
+    "return_in_assigned_if": (["f_ = |v_| -> {H}", "  y_ = if true then return v_ else v_", "  y_", "f_({V})", "'ok'"], "assert"),
+    "return_in_match_arm": (["f_ = |v_| -> {H}", "  match 1", "    1 then return v_", "    else v_", "f_({V})", "'ok'"], "assert"),
+    "return_in_operand": (["f_ = |v_| -> {H}", "  y_ = [1, (if true then return v_ else v_)]", "  v_", "f_({V})", "'ok'"], "assert"),
+    "return_in_block_if": (["f_ = |v_| -> {H}", "  y_ = if true", "    return v_", "  else", "    v_", "  y_", "f_({V})", "'ok'"], "assert"),
     "match_arm": (["match {V}", "  x_: {H} then 'ok'", "  else 'miss'"], "select"),
     "match_ignored": (["match {V}", "  _: {H} then 'ok'", "  else 'miss'"], "select"),
     "match_nested": (["match (0, {V})", "  (_, x_: {H}) then 'ok'", "  else 'miss'"], "select"),
